@@ -41,6 +41,8 @@ checks["C18"]=dict(level="model_checking",engine="gosim",design="4/C18",techniqu
   text="A real Server with 1-2 real clients (TCP transport over virtual pipes, optionally an in-process listener) is closed at a stage chosen as data (start-up, dialled, established, traffic handled) and at every position the bounded scheduler can reach around it; ListenAndServe must return ErrServerClosed, nothing may panic or be left behind, established clients must observe finished, and the Established/Finished callbacks must pair up exactly once per established session, around its handlers.")
 checks["C19"]=dict(level="model_checking",engine="gosim",design="4/C19",technique=SCHED_TECH,
   text="A real Client against a real Server over per-dial virtual TCP connections suffers each fault kind (server finish/fail, abrupt close, half-close, undecodable bytes, non-envelope JSON, oversized envelope) idle or concurrently with a send, at every position within the deviation bound; afterwards a fresh session must exist, a server message must reach the handler, no goroutine may spin, successful sends must have hit the wire of a live session, and Close must leave nothing behind.")
+checks["C17"]=dict(level="model_checking",engine="gosim",design="4/C17",technique=SCHED_TECH,
+  text="2-3 concurrent real clients with distinct identities on one real Server (TCP over virtual pipes mixed with the in-process listener), Register assigning distinct addresses, handlers replying through their Sender; every schedule within the deviation bound including the handshakes; each handler's context must carry its own session's id and nodes, replies must reach only their own client, ids must be distinct and equal to the announced ones.")
 na_reason={}
 m={"version":1,
  "setup_cmd":"./setup.sh",
